@@ -15,6 +15,7 @@ Not decided: string extraction, shader bytecode slices, key hash values.
 """
 import re
 
+from .. import panic as P
 from .. import wire as W
 from ..mir import const_int, op_place
 from ..sym import Explorer, N, is_const, show, walk
@@ -227,6 +228,50 @@ def run(ctx):
                     e = N(e)
                     if isinstance(e, tuple) and e[0] == "bin" and e[1] == "Div" and is_const(e[3]) and e[3][1] == 4 and any(isinstance(t, tuple) and t[0] == "fld" and t[2] == "value_size" for t in walk(e)):
                         ok_n = True
+        if not (ok_idx and ok_n):
+            # the same computation in a helper called from a closure (`constants.iter().map(|c| read_constant(c, ..))`):
+            # look at the body that builds the Constant literal, helpers inlined
+            from .c16 import _find_literal
+            from ..prov import derive as _derive, index_of as _index_of
+
+            hits_ = _find_literal(prog, "mtrl::Material::from_existing", "mtrl::Constant")
+            if len(hits_) == 1:
+                lb_, lst_ = hits_[0]
+                lix_ = _index_of(lb_)
+
+                def _bin(op_):
+                    r_ = lix_.resolve(op_)
+                    if r_[0] == "rv" and r_[1]["k"] == "bin":
+                        return r_[1]["op"].replace("WithOverflow", ""), r_[1]["a"], r_[1]["b"]
+                    if r_[0] == "place" and len(r_[1]["p"]) == 1 and isinstance(r_[1]["p"][0], dict) and r_[1]["p"][0].get("f") == 0:
+                        d_ = lix_.single_def(r_[1]["l"])
+                        if d_ and d_[0] == "assign" and d_[3]["rv"]["k"] == "bin":
+                            return d_[3]["rv"]["op"].replace("WithOverflow", ""), d_[3]["rv"]["a"], d_[3]["rv"]["b"]
+                    if r_[0] == "cast":
+                        return _bin(r_[1]["a"])
+                    if r_[0] == "call" and lix_.callee(r_[1]).split("::")[-1] in ("from", "into") and r_[1]["args"]:
+                        return _bin(r_[1]["args"][0])
+                    return None
+
+                def _div4_of(op_, field):
+                    b_ = _bin(op_)
+                    if not b_ or b_[0] != "Div":
+                        return False
+                    c_ = lix_.resolve(b_[2])
+                    return c_[0] == "const" and c_[1] == 4 and field in _derive(lix_, b_[1]).names
+
+                for _b, t_ in lb_.calls():
+                    c_ = t_.get("res") or ""
+                    if (c_.endswith("Index<I>>::index") or _is_get(c_)) and len(t_["args"]) == 2 and P.source_name(lix_, t_["args"][0]) == "shader_values":
+                        b_ = _bin(t_["args"][1])
+                        if b_ and b_[0] == "Add":
+                            for x_, y_ in ((b_[1], b_[2]), (b_[2], b_[1])):
+                                if _div4_of(x_, "value_offset") and lix_.resolve(y_)[0] != "const" and "value_offset" not in _derive(lix_, y_).names:
+                                    ok_idx = True
+                                    det = "value_offset / 4 + i (in " + lb_.name.split("::")[-1] + ")"
+                ops_ = dict(zip(lst_["rv"]["fields"], lst_["rv"]["ops"]))
+                if "num_values" in ops_ and _div4_of(ops_["num_values"], "value_size"):
+                    ok_n = True
         ctx.ob("CONSTS", "value-index", ok_idx, f"constant values are read at shader_values[{det}]; must be value_offset / 4 + i", mb.file, mb.line, sample=True)
         ctx.ob("CONSTS", "value-count", ok_n, "number of floats per constant = value_size / 4", mb.file, mb.line)
         # constant id
@@ -237,6 +282,16 @@ def run(ctx):
                     ops = args[1][3]
                     if any(isinstance(t, tuple) and t[0] == "fld" and t[2] == "constant_id" for t in walk(ops[0])):
                         ok_id = True
+        if not ok_id:
+            from .c16 import _find_literal
+            from ..prov import derive as _derive, index_of as _index_of
+
+            hits_ = _find_literal(prog, "mtrl::Material::from_existing", "mtrl::Constant")
+            if len(hits_) == 1:
+                lb_, lst_ = hits_[0]
+                ops_ = dict(zip(lst_["rv"]["fields"], lst_["rv"]["ops"]))
+                d_ = _derive(_index_of(lb_), ops_["id"]) if "id" in ops_ else None
+                ok_id = d_ is not None and "constant_id" in d_.names and not d_.ops
         ctx.ob("CONSTS", "id", ok_id, "Constant.id is the stored constant_id", mb.file, mb.line, trivial=True)
 
     # ---- SELECTOR
@@ -313,6 +368,61 @@ def run(ctx):
                         f1 = {t[2] for t in walk(tup[3][1]) if isinstance(t, tuple) and t[0] == "fld"}
                         by_bb[bb_] = (tuple(sorted(f0 & {"selector", "node"})), tuple(sorted(f1 & {"selector", "node"})), "enumerate-index" if not (f1 & {"node", "selector"}) else "field")
 
+        # the same table filled with extend(iter.map(closure)) / extend(a.map(..).chain(b.map(..))): one entry shape per
+        # mapped closure, in chain order
+        from ..prov import derive as _derive, index_of as _index_of
+
+        fix_ = _index_of(fb)
+
+        def closure_seq(op_, depth=0):
+            if depth > 8:
+                return None
+            r_ = fix_.resolve(op_)
+            if r_[0] != "call":
+                return None
+            c_ = fix_.callee(r_[1]).split("::")[-1]
+            a_ = r_[1]["args"]
+            if c_ == "map" and len(a_) == 2:
+                k_ = fix_.resolve(a_[1])
+                if k_[0] == "rv" and k_[1]["k"] == "agg" and k_[1].get("ak") == "closure":
+                    return [k_[1]["closure"]]
+                return None
+            if c_ == "chain" and len(a_) == 2:
+                x_, y_ = closure_seq(a_[0], depth + 1), closure_seq(a_[1], depth + 1)
+                return x_ + y_ if x_ is not None and y_ is not None else None
+            if c_ in ("into_iter", "by_ref", "fuse") and a_:
+                return closure_seq(a_[0], depth + 1)
+            return None
+
+        def closure_entry(name):
+            cb_ = prog.body(name)
+            if cb_ is None:
+                return None
+            cix_ = _index_of(cb_)
+            for _b, _s, st_ in cb_.stmts():
+                rv_ = st_.get("rv") or {}
+                if st_["k"] == "assign" and st_["lhs"]["l"] == 0 and not st_["lhs"]["p"] and rv_.get("k") == "agg" and rv_.get("ak") == "tuple" and len(rv_["ops"]) == 2:
+                    d0_, d1_ = _derive(cix_, rv_["ops"][0]), _derive(cix_, rv_["ops"][1])
+                    f0 = d0_.names & {"selector", "node"}
+                    f1 = d1_.names & {"selector", "node"}
+                    return (tuple(sorted(f0)), tuple(sorted(f1)), "enumerate-index" if not f1 and any(pth and pth[0] == "#0" for pth in d1_.paths) and 2 in d1_.params else "field")
+            return None
+
+        ext = {}
+        for bb_, t_ in fb.calls():
+            if fix_.callee(t_).split("::")[-1] == "extend" and len(t_["args"]) == 2 and "node_selectors" in _derive(fix_, t_["args"][0]).names:
+                seq = closure_seq(t_["args"][1])
+                ents = [closure_entry(n_) for n_ in seq] if seq else None
+                if ents and all(ents):
+                    ext[bb_] = ents
+                    # the enumerate() index only counts when the closure is mapped over nodes.iter().enumerate()
+        multi = []  # (bb, position inside the call, entry)
+        for bb_, v_ in by_bb.items():
+            multi.append((bb_, 0, v_))
+        for bb_, ents in ext.items():
+            for i_, e_ in enumerate(ents):
+                multi.append((bb_, i_, e_))
+
         def reaches(a, b_):
             seen, work = {a}, [a]
             while work:
@@ -326,9 +436,12 @@ def run(ctx):
             return False
 
         # order the push sites: the nodes push must precede (reach, and not be reached from) the alias push
-        sites = sorted(by_bb.items(), key=lambda kv: sum(1 for o in by_bb if o != kv[0] and reaches(o, kv[0]) and not reaches(kv[0], o)))
+        bbs_ = {m_[0] for m_ in multi}
+        rank = {b_: sum(1 for o in bbs_ if o != b_ and reaches(o, b_) and not reaches(b_, o)) for b_ in bbs_}
+        multi.sort(key=lambda m_: (rank[m_[0]], m_[1]))
+        sites = [(m_[0], m_[2]) for m_ in multi]
         pushes = [v for _k, v in sites]
-        ok = len(pushes) == 2 and pushes[0][0] == ("selector",) and pushes[0][2] == "enumerate-index" and pushes[1][0] == ("selector",) and pushes[1][1] == ("node",) and reaches(sites[0][0], sites[1][0]) and not reaches(sites[1][0], sites[0][0])
+        ok = len(pushes) == 2 and pushes[0][0] == ("selector",) and pushes[0][2] == "enumerate-index" and pushes[1][0] == ("selector",) and pushes[1][1] == ("node",) and (sites[0][0] == sites[1][0] or (reaches(sites[0][0], sites[1][0]) and not reaches(sites[1][0], sites[0][0])))
         ctx.ob("NODES", "table-construction", ok, f"node_selectors pushes: {pushes}; must be (node.selector, index) for nodes, then (alias.selector, alias.node) for aliases", fb.file, fb.line, sample=True)
     writers = set()
     for name, b in prog.bodies.items():
@@ -369,6 +482,31 @@ def run(ctx):
                     i_f = {t[2] for t in walk(r[2][1]) if isinstance(t, tuple) and t[0] == "fld"}
                     c_f = {t[2] for t in walk(N(cmp_[0])) if isinstance(t, tuple) and t[0] == "fld"}
                     ok = ok or (1 in i_f and 0 in c_f)
+        if not ok:
+            # the same search spelled node_selectors.iter().find(|(sel, _)| *sel == selector) followed by
+            # nodes.get(entry.1): forward find = first match, the closure compares element field 0 with the captured
+            # selector, the index handed to nodes is field 1 of what find returned
+            from ..prov import derive as _derive, index_of as _index_of
+
+            nix_ = _index_of(nb)
+            for _b, t_ in nb.calls():
+                c_ = nix_.callee(t_)
+                if (c_.endswith("Index<I>>::index") or _is_get(c_)) and len(t_["args"]) == 2 and P.source_name(nix_, t_["args"][0]) == "nodes":
+                    di_ = _derive(nix_, t_["args"][1])
+                    cl_ = {x_.split("::")[-1] for x_ in di_.calls}
+                    via_find = "find" in cl_ and "node_selectors" in di_.names and not ({"rfind", "rev", "last", "rposition", "max_by_key", "min_by_key"} & cl_)
+                    idx_f1 = any(pth and pth[-1] == "#1" for pth in di_.paths) and not any(pth and pth[-1] == "#0" for pth in di_.paths)
+                    cmp_ok = False
+                    for cb_ in prog.closures_of(nb.name):
+                        cix_ = _index_of(cb_)
+                        for _b2, _s2, st_ in cb_.stmts():
+                            rv_ = st_.get("rv") or {}
+                            if st_["k"] == "assign" and rv_.get("k") == "bin" and rv_["op"] in ("Eq", "Ne"):
+                                da_, db_ = _derive(cix_, rv_["a"]), _derive(cix_, rv_["b"])
+                                for el_, cap_ in ((da_, db_), (db_, da_)):
+                                    if 2 in el_.params and any(pth and pth[-1] == "#0" for pth in el_.paths) and not any(pth and pth[-1] == "#1" for pth in el_.paths) and cap_.outer_params == {2} and rv_["op"] == "Eq":
+                                        cmp_ok = True
+                    ok = via_find and idx_f1 and cmp_ok
         ctx.ob("NODES", "find_node", ok, "find_node compares entry.0 with the selector and returns nodes[entry.1]", nb.file, nb.line)
     else:
         ctx.fail_closed("NODES", "shpk::ShaderPackage::find_node not found")
